@@ -3,6 +3,8 @@ package harness
 import (
 	"bytes"
 	"fmt"
+	"os"
+	"path/filepath"
 	"reflect"
 	"sort"
 	"strings"
@@ -12,6 +14,7 @@ import (
 
 	"github.com/MichaelMure/git-bug/cache"
 	"github.com/MichaelMure/git-bug/entities/bug"
+	"github.com/MichaelMure/git-bug/entities/identity"
 	"github.com/MichaelMure/git-bug/entity"
 	"github.com/MichaelMure/git-bug/entity/dag"
 	"github.com/MichaelMure/git-bug/repository"
@@ -364,6 +367,56 @@ func runC04(tb report.TB, rep *report.Reporter, c c04Case) {
 		}
 	}
 	_ = rc.Close()
+
+	// ---- a cache that is already open on the second replica (a web UI, a bridge run) receives a later update
+	if c.Seed%2 == 0 {
+		_ = os.RemoveAll(filepath.Join(r1.Path, ".git", "git-bug", "cache")) // built from git by this session
+	}
+	if err := identity.SetUserIdentity(r1.Repo, r1.Authors[1%len(r1.Authors)].(*identity.Identity)); err != nil {
+		tb.Fatalf("harness: %v", err)
+	}
+	rc2, err := cache.NewRepoCacheNoEvents(r1.Repo)
+	if err != nil {
+		tb.Fatalf("harness: cache: %v", err)
+	}
+	defer rc2.Close()
+	if c.Seed%4 < 2 {
+		_, _ = rc2.Bugs().Resolve(entity.Id(bugId)) // the bug is in use in that session
+	}
+	lb, err := bug.Read(r0.Repo, entity.Id(bugId))
+	if err != nil {
+		tb.Fatalf("harness: %v", err)
+	}
+	_, lateOp, err := bug.AddComment(lb, r0.Authors[0], 99_000, "a later comment, written after the other side opened its cache", nil, nil)
+	if err == nil {
+		err = lb.Commit(r0.Repo)
+	}
+	if err != nil {
+		tb.Fatalf("harness: late comment: %v", err)
+	}
+	if err := w.Push(r0); err != nil {
+		tb.Fatalf("harness: %v", err)
+	}
+	if err := rc2.Pull("origin"); err != nil {
+		if fail("cache/pull/"+Normalize(err.Error()), err.Error()) {
+			return
+		}
+	}
+	if bc2, err := rc2.Bugs().Resolve(entity.Id(bugId)); err != nil {
+		if fail("cache/unresolvable-after-pull/"+Normalize(err.Error()), err.Error()) {
+			return
+		}
+	} else {
+		var viaCache []refmodel.ROp
+		for _, op := range bc2.Snapshot().Operations {
+			viaCache = append(viaCache, ROpFromReal(op))
+		}
+		if a, dd := diffROps(append(append([]refmodel.ROp(nil), expected...), ROpFromReal(lateOp)), viaCache); a != "" {
+			if fail("open-cache-after-pull/"+a, "the cache of the second replica was open when the update arrived\n"+dd) {
+				return
+			}
+		}
+	}
 
 	// ---- the in-memory backend round trip (same operations, same ids)
 	mock := repository.NewMockRepo()
